@@ -3,6 +3,7 @@ package rules
 import (
 	"fmt"
 	"go/token"
+	"strings"
 
 	"golang.org/x/tools/go/ssa"
 
@@ -42,8 +43,8 @@ func init() {
 		c.Rule("C05a guard: in RelayPayment, AddEpochPayment / handleBadgeCu / aggregateReputationEpochQosScore (first state-changing calls of an iteration) are dominated by: creator==provider, lava chain id equality, 0<=epoch<=height, signer recovered, project data found, epoch start found and in memory, not double-spent")
 		c.Rule("C05b guard: chargeCuToSubscriptionAndCreditProvider, updateProvidersComplainerCU and the accepted-relay counter decrement are additionally dominated by: spec found and enabled, ValidatePairingForClient nil error and valid, EnforceClientCUsUsageInEpoch nil error")
 		earlySinks := map[string][]Site{
-			"AddEpochPayment": c.CallsIn(rp, add, true),
-			"handleBadgeCu":   c.CallsIn(rp, hb, true),
+			"AddEpochPayment":                  c.CallsIn(rp, add, true),
+			"handleBadgeCu":                    c.CallsIn(rp, hb, true),
 			"aggregateReputationEpochQosScore": c.CallsByName(rp, true, pk+"Keeper.aggregateReputationEpochQosScore"),
 		}
 		var allSinks []Site
@@ -182,6 +183,106 @@ func init() {
 			FactPrefix("project-enabled", "invoke(x/pairing/types.ProjectsKeeper.GetProjectForDeveloper)", "#0.Enabled"))
 		c.RequireCallers("C05e", pk+"Keeper.handleBadgeCu", pk+"msgServer.RelayPayment")
 		c.RequireGuards("C05e", earlySinks["handleBadgeCu"], "handleBadgeCu", FactHas("badgeFound", "makemap[", "#1"))
+		// the project is resolved at the relay's epoch, never at another block
+		for _, s := range c.CallsByName(gpd, true, "invoke:x/pairing/types.ProjectsKeeper.GetProjectForDeveloper") {
+			a := ir.CallOf(s.Instr).Args
+			d := ir.Desc(a[len(a)-1])
+			key := "C05e/GetProjectData/GetProjectForDeveloper-block=param"
+			if d == "param#3" {
+				c.OK(key, c.P.InstrPos(s.Instr), "block argument is the requested block")
+			} else {
+				c.Fail(key, c.P.InstrPos(s.Instr), "developer key resolved at a block other than the relay's epoch: "+d)
+			}
+		}
+		for _, s := range c.CallsByName(rp, true, pk+"Keeper.GetProjectData") {
+			a := ir.CallOf(s.Instr).Args
+			f, _ := BackwardDeps(a[len(a)-1])
+			key := "C05e/RelayPayment/GetProjectData-block=relay.Epoch"
+			if f["x/pairing/types.RelaySession.Epoch"] && !f["x/pairing/types.MsgRelayPayment.Creator"] {
+				c.OK(key, c.P.InstrPos(s.Instr), ir.Desc(a[len(a)-1]))
+			} else {
+				c.Fail(key, c.P.InstrPos(s.Instr), "project looked up at a block that is not the relay's epoch: "+ir.Desc(a[len(a)-1]))
+			}
+		}
+
+		// pairing validation: verdict only from list membership, list only from getPairingForClient or the per-block cache
+		c.Rule("C05f pairing validation: ValidatePairingForClient returns valid only under AccAddress.Equals(list entry, provider), the list comes from getPairingForClient(chain, epoch start, strictest policy) or from the per-block cache, the requested epoch must be an epoch start; the cache key covers project, chain and epoch and Set/Get use the same key arguments")
+		if vp := c.Fn(pk + "Keeper.ValidatePairingForClient"); vp != nil {
+			var trueRets []Site
+			for _, r := range c.SuccessReturns(vp) {
+				ret := r.Instr.(*ssa.Return)
+				if k, ok := ret.Results[0].(*ssa.Const); ok && k.Value != nil && k.Value.String() == "true" {
+					trueRets = append(trueRets, r)
+				} else if !ok {
+					c.Fail("C05f/ValidatePairingForClient/valid-result-is-constant", c.P.InstrPos(ret), "validity result is computed, not a constant guarded by membership: "+ir.Desc(ret.Results[0]))
+				}
+			}
+			if len(trueRets) == 0 {
+				c.Undecided("ValidatePairingForClient has no `return true` site")
+			}
+			c.RequireGuards("C05f", trueRets, "return-valid",
+				CallIs(true, "github.com/cosmos/cosmos-sdk/types.AccAddress.Equals"),
+				ErrNil("invoke:x/pairing/types.EpochstorageKeeper.GetEpochStartForBlock"),
+				Cmp("epoch-is-epoch-start", "EpochstorageKeeper.GetEpochStartForBlock)", "==", "param#3"),
+			)
+			for _, r := range trueRets {
+				for _, g := range ir.Guards(r.Instr) {
+					v, _ := stripNot(g.If.Cond, g.Edge)
+					if call, _ := callOfValue(v); call != nil && ir.CalleeName(&call.Call) == "github.com/cosmos/cosmos-sdk/types.AccAddress.Equals" {
+						d := ir.Desc(call)
+						key := "C05f/ValidatePairingForClient/membership-compares-provider-param"
+						_, calls := BackwardDeps(call)
+						if strings.Contains(d, "param#2") && (calls[pk+"Keeper.getPairingForClient"] || calls[pk+"Keeper.GetPairingRelayCache"]) {
+							c.OK(key, c.P.InstrPos(call), trunc(d, 200))
+						} else {
+							c.Fail(key, c.P.InstrPos(call), "membership test does not compare the pairing list with the provider argument: "+trunc(d, 300))
+						}
+					}
+				}
+			}
+			// the pairing computation is for the epoch start and this project
+			for _, s := range c.CallsByName(vp, true, pk+"Keeper.getPairingForClient") {
+				a := argDescs(ir.CallOf(s.Instr))
+				key := "C05f/ValidatePairingForClient/getPairingForClient-args"
+				n := len(a)
+				if n >= 7 && a[n-6] == "param#1" && strings.Contains(a[n-5], "GetEpochStartForBlock)") && strings.HasSuffix(a[n-2], "param#4.Index") {
+					c.OK(key, c.P.InstrPos(s.Instr), strings.Join(a[n-6:], ","))
+				} else {
+					c.Fail(key, c.P.InstrPos(s.Instr), "pairing computed for other chain/epoch/project than requested: "+trunc(strings.Join(a, ","), 300))
+				}
+			}
+			// cache get/set argument agreement
+			gets := c.CallsByName(vp, true, pk+"Keeper.GetPairingRelayCache")
+			setsC := c.CallsByName(vp, true, pk+"Keeper.SetPairingRelayCache")
+			if len(gets) != 1 || len(setsC) != 1 {
+				c.Undecided("ValidatePairingForClient: expected one cache get and one cache set, found %d/%d", len(gets), len(setsC))
+			} else {
+				ga, sa := argDescs(ir.CallOf(gets[0].Instr)), argDescs(ir.CallOf(setsC[0].Instr))
+				g3, s3 := strings.Join(ga[len(ga)-3:], ","), strings.Join(sa[len(sa)-5:len(sa)-2], ",")
+				if g3 == s3 {
+					c.OK("C05f/ValidatePairingForClient/cache-get-key=set-key", c.P.InstrPos(setsC[0].Instr), g3)
+				} else {
+					c.Fail("C05f/ValidatePairingForClient/cache-get-key=set-key", c.P.InstrPos(setsC[0].Instr), "cache read under ("+g3+") but written under ("+s3+")")
+				}
+			}
+		}
+		c.RequireAllParamsUsed("C05f", "x/pairing/types.NewPairingCacheKey")
+		for _, n := range []string{pk + "Keeper.SetPairingRelayCache", pk + "Keeper.GetPairingRelayCache"} {
+			if f := c.Fn(n); f != nil {
+				ss := c.CallsByName(f, true, "x/pairing/types.NewPairingCacheKey")
+				if len(ss) != 1 {
+					c.Undecided("%s: expected one NewPairingCacheKey call", n)
+					continue
+				}
+				a := strings.Join(argDescs(ir.CallOf(ss[0].Instr)), ",")
+				if a == "param#1,param#2,param#3" {
+					c.OK("C05f/"+n+"/key-args", c.P.InstrPos(ss[0].Instr), a)
+				} else {
+					c.Fail("C05f/"+n+"/key-args", c.P.InstrPos(ss[0].Instr), "cache key not built from (project, chain, epoch) parameters: "+a)
+				}
+			}
+		}
+		c.RequireCallers("C05f", pk+"Keeper.SetPairingRelayCache", pk+"Keeper.ValidatePairingForClient")
 		c.NotCovered("cryptographic soundness of signature recovery; that a failed message leaves state unchanged (SDK revert)")
 	})
 }
